@@ -75,6 +75,7 @@ theorem inv_cGet_io (h : Inv c s) (hio : c.inOrder = true) (hpc : s.cpc = .get) 
     omega
   case stopOf => simp
   case bootI => simp
+  case deadSeen => simp
 
 theorem inv_cGet_un (h : Inv c s) (hio : c.inOrder = false) (hpc : s.cpc = .get) (m : Msg) (rest : List Msg)
     (hq : s.mid = m :: rest) (d : Bool) (st : Nat) (hd : d = (s.done || decide (m.pay = .stop)))
@@ -143,6 +144,7 @@ theorem inv_cGet_un (h : Inv c s) (hio : c.inOrder = false) (hpc : s.cpc = .get)
     omega
   case stopOf => simp
   case bootI => simp
+  case deadSeen => simp
 
 theorem chand_lt (h : Inv c s) {i : Nat} (hc : s.cpc.hand = some i) : i < s.pulled := by
   have h1 := h.cnt i
@@ -215,6 +217,7 @@ theorem inv_cRel_stop (h : Inv c s) (m : Msg) (hpc : s.cpc = .rel m) (hsem : s.s
     exact this
   case stopOf => simp
   case bootI => simp
+  case deadSeen => simp
 
 theorem inv_cRel_err (h : Inv c s) (m : Msg) (hpc : s.cpc = .rel m) (hsem : s.sem < c.max) (hp : m.pay = .err) :
     Inv c { s with sem := s.sem + 1, got := s.got ++ [m.idx], errs := s.errs + 1, cpc := .idle } := by
@@ -283,6 +286,7 @@ theorem inv_cRel_err (h : Inv c s) (m : Msg) (hpc : s.cpc = .rel m) (hsem : s.se
   case closed => intro _ h2; simp at h2
   case stopOf => simp
   case bootI => simp
+  case deadSeen => simp
 
 theorem inv_cRel_item (h : Inv c s) (m : Msg) (hpc : s.cpc = .rel m) (hsem : s.sem < c.max) (y : Nat)
     (hp : m.pay = .item y) : Inv c { s with sem := s.sem + 1, cpc := .pop m } := by
@@ -311,5 +315,6 @@ theorem inv_cRel_item (h : Inv c s) (m : Msg) (hpc : s.cpc = .rel m) (hsem : s.s
     exact this
   case stopOf => simp
   case bootI => simp
+  case deadSeen => simp
 
 end TDV.PM
